@@ -53,6 +53,10 @@ MC_SNAP = mc_conc({'MAXOPS': '1', 'TRANSPORT': 'log', 'SNAPFAILS': 'FALSE'}, {'M
 MC_SNAP_FAIL = mc_conc({'MAXOPS': '1', 'TRANSPORT': 'log', 'SNAPFAILS': 'TRUE'}, {'MAXOPS': '1', 'TRANSPORT': 'log', 'SNAPFAILS': 'TRUE', 'LAYOUTS': 'LayoutSome'}, cfg='MC_Snap.cfg', timeout=3000)
 MC_SNAP_ASBUILT = mc_conc({'MAXOPS': '1', 'TRANSPORT': 'log', 'SNAPFAILS': 'FALSE'}, {'MAXOPS': '1', 'TRANSPORT': 'log', 'SNAPFAILS': 'TRUE'}, cfg='MC_Snap.cfg', asbuilt=True, thorough_only=True, timeout=3000)
 
+# two overlapping snapshots (one writer, a failing first snapshot with retries): either file restores to a consistent cut
+MC_SNAP2_G = mc_conc({'MAXOPS': '2', 'TRANSPORT': 'log', 'SNAPFAILS': 'TRUE', 'RSTFILE': 'g'}, {'MAXOPS': '2', 'TRANSPORT': 'log', 'SNAPFAILS': 'TRUE', 'RSTFILE': 'g'}, cfg='MC_Snap2.cfg', timeout=3000)
+MC_SNAP2_F = mc_conc({'MAXOPS': '2', 'TRANSPORT': 'log', 'SNAPFAILS': 'TRUE', 'RSTFILE': 'f'}, {'MAXOPS': '2', 'TRANSPORT': 'log', 'SNAPFAILS': 'TRUE', 'RSTFILE': 'f'}, cfg='MC_Snap2.cfg', thorough_only=True, timeout=3000)
+
 PROPS = {
     'C01': seq_prop('c01', 150, 2500, mc=[MC_STORE_STRICT, MC_STORE_ASBUILT, MC_STORE_NEG, MC_SCHEMA, MC_SCHEMA_COLS], more=[fam('seq', 'c01w', 24, 300)]),
     'C02': seq_prop('c02', 120, 2000, mc=[MC_ATOMIC], more=[fam('seq', 'c02k', 60, 1000), fam('seq', 'c01w', 16, 200), fam('conc', 'c02', 16, 300)]),
@@ -78,7 +82,7 @@ PROPS = {
     'C06': seq_prop('c06', 60, 1500, mc=[MC_CONC_STRICT, MC_CONC_LOG, MC_CONC_ASBUILT, MC_CONC_NEG],
                     more=[fam('conc', 'c06', 24, 400), fam('conc', 'c06dfs', 1, 16)]),
     'C07': seq_prop('c07', 120, 2000, mc=[MC_SNAP], more=[fam('seq', 'c07k', 40, 500)]),
-    'C08': {'level': 'model_checking', 'mc': [MC_SNAP, MC_SNAP_ASBUILT], 'families': [fam('conc', 'c08', 32, 500), fam('conc', 'c14x', 16, 200), fam('conc', 'c08dfs', 1, 12)], 'trace': COLUMN_TRACE, 'assumptions': []},
+    'C08': {'level': 'model_checking', 'mc': [MC_SNAP, MC_SNAP_ASBUILT, MC_SNAP2_G, MC_SNAP2_F], 'families': [fam('conc', 'c08', 32, 500), fam('conc', 'c14x', 16, 200), fam('conc', 'c08dfs', 1, 12)], 'trace': COLUMN_TRACE, 'assumptions': []},
     'C09': {'level': 'model_checking', 'mc': [MC_CONC_STRICT], 'families': [fam('conc', 'c09', 48, 800), fam('par', 'c09', 8, 200)], 'trace': COLUMN_TRACE, 'assumptions': []},
     'C10': {'level': 'model_checking', 'assumptions': ['torn reads are searched for statistically under real parallelism (16 cores); the latch probes are deterministic'],
             'mc': [{'module': 'Latch', 'cfg': 'MC_Latch.cfg', 'constants': {'READLATCH': 'TRUE'}, 'quick': {}, 'thorough': {}, 'deadlock': True},
@@ -97,7 +101,7 @@ PROPS = {
     'C13': {'level': 'model_checking', 'mc': [MC_SNAP], 'families': [fam('trunc', 'c13', 8, 16, shards=8), fam('trunc', 'c13t', 0, 8, shards=8),
                          fam('truncbig', 'some', 4, 0, shards=4, trace={'module': 'PrefixTrace', 'cfg': 'PrefixTrace.cfg'}),
                          fam('truncbig', 'all', 0, 8, shards=8, trace={'module': 'PrefixTrace', 'cfg': 'PrefixTrace.cfg'})], 'trace': COLUMN_TRACE, 'assumptions': []},
-    'C14': {'level': 'model_checking', 'mc': [MC_SNAP_FAIL], 'families': [fam('fault', 'c14', 12, 12, shards=6), fam('fault', 'c14big', 2, 8, shards=2), fam('conc', 'c14x', 24, 300), fam('fault', 'c14t', 0, 6, shards=6)], 'trace': COLUMN_TRACE, 'assumptions': []},
+    'C14': {'level': 'model_checking', 'mc': [MC_SNAP_FAIL, MC_SNAP2_G, MC_SNAP2_F], 'families': [fam('fault', 'c14', 12, 12, shards=6), fam('fault', 'c14big', 2, 8, shards=2), fam('conc', 'c14x', 24, 300), fam('fault', 'c14t', 0, 6, shards=6)], 'trace': COLUMN_TRACE, 'assumptions': []},
     'C15': seq_prop('c15', 100, 2000, mc=[MC_CONC_STRICT], more=[fam('conc', 'c15', 32, 500)]),
     'C16': seq_prop('c16', 150, 2500, mc=[MC_STORE_STRICT, MC_SCHEMA, MC_SCHEMA_COLS]),
     'C17': {'level': 'model_checking', 'assumptions': ['wall-clock: removals are timestamped inside the logger callback; "must be gone" leaves 10 intervals + 3 s of slack'],
